@@ -463,6 +463,110 @@ Definition adverts_in (U : list kt) (tr : list step) : Prop :=
 Definition unheld_count (U : list kt) (held : held_map) : nat :=
   length (filter (fun u => negb (is_held held (fst u))) U).
 
+(* ---- the NetworkEvent channel (C08: "a timed-out holder being reported") ----
+   `send_event` spawns a task that awaits `Sender::send`: tokio's bounded mpsc queue plus the senders
+   waiting for capacity (served first-come first-served).  `ch_try_send` is what a non-blocking
+   `try_send` would do instead: drop the event when the queue is full. *)
+Definition event := list peer.
+Record chan := mkChan { ch_cap : nat; ch_q : list event; ch_wait : list event }.
+Definition ch_send (c : chan) (e : event) : chan :=
+  match ch_wait c with
+  | [] => if (length (ch_q c) <? ch_cap c)%nat then mkChan (ch_cap c) (ch_q c ++ [e]) []
+          else mkChan (ch_cap c) (ch_q c) [e]
+  | w => mkChan (ch_cap c) (ch_q c) (w ++ [e])
+  end.
+Definition ch_try_send (c : chan) (e : event) : chan :=
+  if (length (ch_q c) <? ch_cap c)%nat then mkChan (ch_cap c) (ch_q c ++ [e]) (ch_wait c) else c.
+(* the consumer takes one event; the longest-waiting sender gets the freed slot *)
+Definition ch_recv (c : chan) : option event * chan :=
+  match ch_q c with
+  | [] => (None, c)
+  | x :: q =>
+      (Some x, match ch_wait c with
+               | [] => mkChan (ch_cap c) q []
+               | w :: ws => mkChan (ch_cap c) (q ++ [w]) ws
+               end)
+  end.
+Fixpoint ch_drain (fuel : nat) (c : chan) : list event :=
+  match fuel with
+  | O => []
+  | S f => match ch_recv c with (Some x, c') => x :: ch_drain f c' | (None, _) => [] end
+  end.
+Definition ch_contents (c : chan) : list event := ch_q c ++ ch_wait c.
+(* senders wait only while the queue is full *)
+Definition ch_wf (c : chan) : Prop := (0 < ch_cap c)%nat /\ (ch_wait c <> [] -> (ch_cap c <= length (ch_q c))%nat).
+(* everything the steps of a history emitted, in order *)
+Definition emitted (tr : list step) : list event := concat (map (fun st => events (snd (fst st))) tr).
+
+(* a history whose events were NOT drained step by step (consumer busy): every step is accepted with
+   the events the model says it emits, and the events delivered once the consumer catches up are
+   exactly those, in order *)
+Definition model_events (s : state) (o : op) : list event := snd (fst (settle s o)).
+Fixpoint run_deferred (s : state) (tr : list step) : bool * list event :=
+  match tr with
+  | [] => (true, [])
+  | (o, out, post) :: r =>
+      let ev := model_events s o in
+      let '(ok, em) := run_deferred post r in
+      (step_ok s o (mkOut (ret out) ev) post && ok, ev ++ em)
+  end.
+(* the same history with the events the model says each step emits *)
+Fixpoint reemit (s : state) (tr : list step) : list step :=
+  match tr with
+  | [] => []
+  | (o, out, post) :: r => (o, mkOut (ret out) (model_events s o), post) :: reemit post r
+  end.
+Definition agree_deferred (tr : list step) (delivered : list event) : bool :=
+  let '(ok, em) := run_deferred init tr in ok && events_eqb em delivered.
+
+(* ---- the PutLocalRecord arm of SwarmDriver::handle_local_cmd (cmd.rs) around the fetcher ----
+   put_verified; on StoreError::MaxRecords: set_farthest_on_full(store.get_farthest());
+   then notify_about_new_put (its fetches are emitted); then set_replication_distance_range if the
+   store has a responsible range.  The store's answers are data. *)
+Inductive put_result := PutOk | PutMaxRecords (farthest_held : option key) | PutErr.
+Definition arm_ops (res : put_result) (k : key) (t : rtype) (rng : option N) : list op :=
+  (match res with PutMaxRecords fk => [SetFarthest fk] | _ => [] end) ++
+  [NotifyPut k t] ++
+  (match rng with Some r => [SetRange r] | None => [] end).
+Definition with_range (s : state) (r : option N) : state :=
+  mkState (tbf s) (ongoing s) r (farthest s) (now s).
+(* the arm as steps: only the fetches it emitted (`out`) and the state afterwards (`post`) are
+   observed; the intermediate states of the two deterministic updates are the model's *)
+Definition arm_steps (pre : state) (res : put_result) (k : key) (t : rtype) (rng : option N)
+           (out : output) (post : state) : list step :=
+  let s1 := match res with PutMaxRecords fk => set_farthest pre fk | _ => pre end in
+  (match res with PutMaxRecords fk => [(SetFarthest fk, mkOut [] [], s1)] | _ => [] end) ++
+  [(NotifyPut k t, out, with_range post (range s1))] ++
+  (match rng with Some r => [(SetRange r, mkOut [] [], post)] | None => [] end).
+(* the WRONG order (seeded change C08-8): the freed slot is handed out before the fullness update *)
+Definition arm_steps_wrong (pre : state) (fk : option key) (k : key) (t : rtype)
+           (out : output) (mid post : state) : list step :=
+  [(NotifyPut k t, out, mid); (SetFarthest fk, mkOut [] [], post)].
+
+Inductive item :=
+| IStep (st : step)
+| IArm (res : put_result) (k : key) (t : rtype) (rng : option N) (out : output) (post : state).
+Definition item_steps (s : state) (it : item) : list step :=
+  match it with
+  | IStep st => [st]
+  | IArm res k t rng out post => arm_steps s res k t rng out post
+  end.
+Definition item_post (it : item) : state :=
+  match it with IStep (_, _, post) => post | IArm _ _ _ _ _ post => post end.
+Fixpoint expand (s : state) (its : list item) : list step :=
+  match its with
+  | [] => []
+  | it :: r => item_steps s it ++ expand (item_post it) r
+  end.
+Fixpoint run_items (s : state) (its : list item) : bool :=
+  match its with
+  | [] => true
+  | it :: r =>
+      run_ok s (item_steps s it) &&
+      st_equiv (last_state s (item_steps s it)) (item_post it) &&
+      run_items (item_post it) r
+  end.
+
 (* diagnostics for replay files: index of the first rejected step, the clause values, the state
    the deterministic part reached *)
 Definition diag_step (pre : state) (o : op) (out : output) (post : state) : list bool * state :=
